@@ -13,7 +13,9 @@ CFG = {
     "level_text": "Executable specification + proof of the kernel links: on every run the encoder's own reconstruction planes (verif hook, serial and parallel encoder paths) are compared bit-exactly with what the extracted RFC 6386 specification decoder (Vp8Spec.decode_unfiltered, written in Gallina, independent of the Go code) reconstructs from the emitted bytes before the loop filter, with the Go decoder's pre-filter planes, and - at FilterStrength 0 - with webp.Decode's planes; dimensions are compared with the source. Coq theorems (all inputs) link the two reconstruction paths at kernel level: encoder inverse transform = decoder inverse DCT + prediction, encoder quantiser step sizes = decoder dequantisation factors for every index and delta, skipped macroblocks reconstruct the prediction, every coded level has exactly one token.",
     "level_note": "The whole-frame statement no_drift (Vp8EncPath.no_drift_statement) is NOT proved: there is no Gallina model of the encoder's frame loop (mode choice, token recording, context export); it is evaluated by execution on generated pictures x options. Trusted: Coq kernel, extraction, OCaml glue, Go harness, translator, the verif hook returning the encoder planes.",
     "technique": "executable Gallina specification decoder run on the encoder's output vs the encoder's reconstruction (hook); Rocq proofs of the kernel-level links (finite complete sweeps where tables are involved)",
-    "notes": [],
+    "notes": [
+        "generators: pictures x options (serial and forced-parallel), a rate-control family (TargetSize / TargetPSNR x Pass 1,2,3,4,6,10, targets placed around the picture's own size so the search converges early in some runs and runs out of passes in others), and wide-then-narrow encode pairs through the pooled row-parallel state (one goroutine, GC held off, textured content, Method >= 3, >= 4 macroblock rows).",
+    ],
     "partial": [
         "no_drift (for all images, options and encoder choices: decode_unfiltered(bytes) = encoder reconstruction) is stated as Vp8EncPath.no_drift_statement and not proved; the four theorems are the kernel-level lemmas such a proof would use (hence the _partial suffix); serial_eq_parallel_recon and token_record_eq_emit are not modelled, they are covered by execution (forced serial and forced parallel runs both compared with the specification decoder)",
     ],
